@@ -208,6 +208,10 @@ func genRegSize(t *rapid.T, small bool) int {
 		return n + rapid.IntRange(0, n).Draw(t, "jit")
 	default:
 		if small {
+			if rapid.IntRange(0, 2).Draw(t, "refused") == 1 {
+				// a write over the limit: refused, and must leave every chunk as it was
+				return regMaxSize + rapid.SampledFrom([]int{1, 2, 4096, 5000}).Draw(t, "over")
+			}
 			return rapid.IntRange(1, 20000).Draw(t, "size")
 		}
 		return rapid.SampledFrom([]int{regMaxSize, regMaxSize + 1, regMaxSize - 1, regMaxSize + 5000, 300000}).Draw(t, "bigsize")
@@ -293,7 +297,7 @@ func TestC14(t *testing.T) { pbt.Run(t, c14Prop) }
 
 // ---- C15 ----------------------------------------------------------------------------------------
 
-type c15Stats struct{ images, writesInterrupted, nontrivial int64 }
+type c15Stats struct{ images, writesInterrupted, nontrivial, refused int64 }
 
 func c15Check(c C14Case) *pbt.Violation { v, _ := c15Run(c, false); return v }
 
@@ -324,9 +328,6 @@ func c15Run(c C14Case, record bool) (*pbt.Violation, c15Stats) {
 			}
 			r = nr
 		case "write":
-			if op.Size > regMaxSize {
-				continue
-			}
 			before := append([]byte{}, mem.Data...)
 			log = log[:0]
 			data := regData(op)
@@ -335,8 +336,12 @@ func c15Run(c C14Case, record bool) (*pbt.Violation, c15Stats) {
 			if old, ok := model[key]; ok {
 				oldNeed = (len(old) + 4 + 4095) / 4096
 			}
-			if werr := r.WriteSector(op.X, op.Z, data); werr != nil {
+			werr := r.WriteSector(op.X, op.Z, data)
+			if werr != nil && op.Size <= regMaxSize {
 				return pbt.V("c14.write.error", "any size up to the limit can be written", "%s: %v", step, werr), st
+			}
+			if werr != nil {
+				st.refused++
 			}
 			writes := append([]iox.WriteRec{}, log...)
 			need := (len(data) + 4 + 4095) / 4096
@@ -357,6 +362,11 @@ func c15Run(c C14Case, record bool) (*pbt.Violation, c15Stats) {
 					for _, f := range c.Tears {
 						if len(last.Data) > 1 {
 							cuts = append(cuts, 1+f%(len(last.Data)-1))
+						}
+					}
+					if len(last.Data) <= 8 { // header entries and length fields: every byte offset
+						for t := 1; t < len(last.Data); t++ {
+							cuts = append(cuts, t)
 						}
 					}
 				}
@@ -382,7 +392,9 @@ func c15Run(c C14Case, record bool) (*pbt.Violation, c15Stats) {
 					}
 				}
 			}
-			model[key] = data
+			if werr == nil {
+				model[key] = data
+			}
 		}
 	}
 	return nil, st
@@ -444,6 +456,7 @@ func TestC15(t *testing.T) {
 		tot.images += st.images
 		tot.writesInterrupted += st.writesInterrupted
 		tot.nontrivial += st.nontrivial
+		tot.refused += st.refused
 		k++
 		if k%100 == 1 {
 			pbt.Ev.Sample(map[string]any{"test": "C15", "case": c, "crash_images": st.images})
@@ -460,5 +473,6 @@ func TestC15(t *testing.T) {
 	pbt.Ev.LabelN("crash_images", tot.images)
 	pbt.Ev.LabelN("crash_images_nontrivial", tot.nontrivial)
 	pbt.Ev.LabelN("write_sector_calls_interrupted", tot.writesInterrupted)
+	pbt.Ev.LabelN("refused_oversize_writes_in_histories", tot.refused)
 	pbt.Ev.LabelN("histories", int64(n))
 }
